@@ -135,7 +135,9 @@ fn exec_resize<P: Px>(cc: &CCase, stats: &mut Stats, viols: &mut Vec<Viol>, thre
     let src = make_pixels::<P>(c.sw, c.sh, &c.content, c.alpha.as_ref());
     let opts = c.options();
     let reference = if threads > 0 { firv::pool::install(1, || resize_vec::<P>(&src, c.sw, c.sh, c.dw, c.dh, &opts, cc.ext)) } else { resize_vec::<P>(&src, c.sw, c.sh, c.dw, c.dh, &opts, cc.ext) };
-    let mut sb = Backing::<P>::new(cc.sp, c.sw, c.sh, 0x1111);
+    // every third case: the surroundings of a float source view hold NaN and infinities
+    let spat = if (c.sw + c.dw + c.sh) % 3 == 0 { 0x1111 | NONFINITE } else { 0x1111 };
+    let mut sb = Backing::<P>::new(cc.sp, c.sw, c.sh, spat);
     sb.put(&src);
     let mut db = Backing::<P>::new(cc.dp, c.dw, c.dh, 0x2222);
     let mut r = resizer(cc.ext);
